@@ -34,7 +34,7 @@ Step(e) ==
                             [] OTHER -> clientText
          /\ clientCfg' = IF e.kind \in {"config", "silentcfg"} THEN e.cfg ELSE clientCfg
          \* settings changed without a notification: nothing is promised until the change is announced
-         /\ announced' = (IF e.kind = "silentcfg" THEN FALSE ELSE IF e.kind = "config" THEN TRUE ELSE announced)
+         /\ announced' = (IF e.kind = "silentcfg" THEN FALSE ELSE IF e.kind \in {"config", "confignull"} THEN TRUE ELSE announced)
          /\ tainted' = IF e.kind \in {"open", "change", "close", "delete"} THEN tainted \ {e.url}
                        ELSE IF e.kind \in {"deletedir", "deletedir/"} THEN tainted \ (Urls \ {2}) ELSE tainted
          /\ UNCHANGED published
